@@ -16,6 +16,16 @@ witness in `Props/C05.lean`):
                 authoritatively not started (what the validating webhook admits);
 * E-ErrNotApplied  injected faults are `err`, `conflict`, `timeout` (a failed write was not applied);
 * no external start of a Job (only the queue controller sets `startTime`).
+
+Assumptions encoded in `step` itself, through `Act.restart` = `Model/Queue.restart` (each excludes
+histories C05 quantifies over; witnesses `Props/C05` §(g), known findings F27, F28):
+* E-FreshInitialList  a starting process's caches are the server's CURRENT state and every
+                      undelivered event is dropped (reality: the initial LIST may be any state the
+                      server went through since the old cache — `Model/Queue.restartStaleWin kj kc w`);
+* E-QuiescentRecover  `Store.Recover` recounts atomically (reality: events reach the cache between
+                      the handler registration and the lister read — the `w` of `restartStaleWin`).
+There is no relist action (`Model/Queue.relist`; a watch outage only shows as delivery lag here), so
+E-FinalizerPresent (known finding F35) never comes into play inside `Reachable`.
 -/
 import FurikoModel.Proofs.QueueBasic
 import FurikoModel.Proofs.QueueWQ
